@@ -311,6 +311,26 @@ def handle (toks : List String) : String :=
           showErr e ++ " state=" ++ showVal (simToDict s') ++ " files=" ++ toString st.length
       | _, _ => "bad-op"
     | _, _ => "bad-op"
+  | "file2" :: fuel :: rest =>
+    -- R15 / R16: one long-lived object saved twice under one template into one folder, its state
+    -- before the first save and (after a setter / an in-place refill) before the second one;
+    -- both files are loaded after the second save.
+    -- L6: sim before save 1, sim before save 2, template text, segments, extension, float renderings
+    match fuel.toNat?, parseVal rest with
+    | some fuel, some (.list [sv1, sv2, .str txt, segs, .str ext, tbl], []) =>
+      match simOfVal sv1, simOfVal sv2, segsOfVal segs with
+      | some s1, some s2, some sg =>
+        match saveStep (frOfVal tbl) [] s1 txt sg ext with
+        | ((st1, _), .ok f1) =>
+          match saveStep (frOfVal tbl) st1 s2 txt sg ext with
+          | ((st2, _), .ok f2) =>
+            "ok name1=" ++ showStr (f1.stem ++ f1.ext) ++ " name2=" ++ showStr (f2.stem ++ f2.ext) ++
+              " loaded1=" ++ showR (fun s => showVal (simToDict s)) (loadFromFile fuel st2 f1) ++
+              " loaded2=" ++ showR (fun s => showVal (simToDict s)) (loadFromFile fuel st2 f2)
+          | (_, .error e) => "second " ++ showErr e
+        | (_, .error e) => "first " ++ showErr e
+      | _, _, _ => "bad-op"
+    | _, _ => "bad-op"
   | _ => "bad-op"
 
 def main : IO Unit := runDriver handle
